@@ -60,6 +60,11 @@ CHECKS = {
     technique="TLA+ murmur2/placement oracle (Partitioner.tla) evaluated by TLC (O1) + state-machine spec PartSM.tla model-checked and used to validate recorded call traces of the real partitioners (V)",
     text="Partitioner.tla implements murmur2 over byte tuples (32-bit-safe schoolbook multiplication, xor/shift over bit vectors), Kafka's sign-masked modulo and Sarama's signed remainder via bitwise modular reduction; it is anchored on Kafka's golden vectors and evaluated on ~870 keys x 7 partition counts and on boundary hashes, compared with the default key partitioner, UniformBytes(keys), KafkaHasher and SaramaCompatHasher (equal keys twice). PartSM.tla models sticky, round-robin, least-backup and uniform-bytes as pinned-partition state machines with shrinking/growing n; InRange is model-checked, and every operation sequence to depth 5-6 is run on the real partitioners and validated event by event (a pick outside [0,n) rejects the trace).",
     note="Random choices inside the partitioners are left nondeterministic in the spec; in-range departures from the pinning rule are counted as drift, not violations (0 on the current tree)."),
+ "C30": dict(
+    level="model_checking", design="5/C30, 4.1, 4.2",
+    technique="TLA+ specs Ring.tla / WorkLoop.tla / WLHard.tla model-checked by TLC; every edge of the state graphs replayed on the current ring.go / atomic_maybe_work.go under a deterministic scheduler (binding R)",
+    text="Ring.tla (one action per critical section, cond.Wait split into park/resume, Signal waking a nondeterministically chosen waiter, growth/shrink, die) and WorkLoop.tla (one action per atomic Load/CAS/Store) are checked exhaustively for FIFO, no loss/duplication, at most one worker, parked-only-while-full, dead-rejects, no lost wake-up and termination. The TLC state graph is dumped, walks covering every edge (plus random walks) are exported, and each is executed on the CURRENT source files copied with sync/xsync/atomic rewritten to harness/ctl, where every primitive operation is a scheduler step and the replayer picks the thread and the waiter a Signal wakes; after each step the real state (length, contents, parked/woken pushers, worker, processed/accepted/rejected; latch word, pending work, thread positions) is compared with the spec state, and two live workers or stranded work are flagged directly.",
+    note="Bounds: up to 4 pushers / 3 signallers, 1-3 operations each, maxLen 0-2, minRingCap scaled to 2 so growth/shrink are reached; the extractor exits 2 if a file no longer matches; the transient hardFinish user in source.go is covered at design level only (WLHard.tla)."),
 }
 
 NOT_APPLICABLE = {
